@@ -1,6 +1,7 @@
 package main
 
 import (
+	"strings"
 	"fmt"
 	"math"
 	"time"
@@ -179,7 +180,13 @@ func prefilterCase(variant int, o sweepOpts) CaseResult {
 	for _, k := range cfg.MinMaxIndexes {
 		indexed[k] = true
 	}
-	w, err := newWorld(cfg, nil)
+	// odd variants run over the library's own MemoryMetaStore (it keeps file metadata in
+	// memory across queries), even ones over the harness store
+	mk := newWorld
+	if variant%2 == 1 || variant == 2 {
+		mk = newWorldShipped
+	}
+	w, err := mk(cfg, nil)
 	if err != nil {
 		res.Findings = append(res.Findings, fnd("setup", "%v", err))
 		return res
@@ -221,6 +228,8 @@ func prefilterCase(variant int, o sweepOpts) CaseResult {
 	tx := bs.Token("x")
 	blooms := []*bs.BloomExpression{nil, &tx}
 	outcomes := map[string]bool{}
+	state0 := w.storedState()
+	probe := newProbes(w, prefilterExprs())
 	for pi, pe := range prefilterExprs() {
 		for bi, be := range blooms {
 			q := &bs.Query{Prefilter: &bs.QueryPrefilter{Expression: pe}}
@@ -255,6 +264,17 @@ func prefilterCase(variant int, o sweepOpts) CaseResult {
 			}
 			if o.c02 {
 				checkBlockGranular(name, qr, si, w, q, &res.Findings)
+				// a query is read-only: what the stores hold (and hence every later answer)
+				// must be what they held before it ran
+				if now := w.storedState(); now != state0 {
+					// decided on answers, not on representation: the probe queries must still
+					// return what they returned before any query ran
+					if d := probe.differs(w); d != "" {
+						res.Findings = append(res.Findings, fnd("c02-query-changed-later-answers", "C02 %s: after this query a later query answers differently than before it (%s); stored state changed: %s", name, d, firstDiffLine(state0, now)))
+						return res
+					}
+					state0 = now
+				}
 			}
 			if o.c23 {
 				checkStats(name, qr, si, q, &res.Findings)
@@ -511,4 +531,61 @@ func batchBoundaryCase(o sweepOpts) CaseResult {
 		w.Close()
 	}
 	return res
+}
+
+func firstDiffLine(a, b string) string {
+	la, lb := strings.Split(a, "\n"), strings.Split(b, "\n")
+	for i := 0; i < len(la) || i < len(lb); i++ {
+		x, y := "", ""
+		if i < len(la) {
+			x = la[i]
+		}
+		if i < len(lb) {
+			y = lb[i]
+		}
+		if x != y {
+			if len(x) > 600 {
+				x = x[:600] + "…"
+			}
+			if len(y) > 600 {
+				y = y[:600] + "…"
+			}
+			return fmt.Sprintf("before: %s | after: %s", x, y)
+		}
+	}
+	return "(no line differs)"
+}
+
+// probes: a fixed set of queries with the answers they gave before a sweep started.
+type probes struct {
+	qs   []*bs.Query
+	want [][]string
+}
+
+func newProbes(w *World, pes []*bs.PrefilterExpression) *probes {
+	p := &probes{}
+	tx := bs.Token("x")
+	p.qs = append(p.qs, &bs.Query{}, &bs.Query{Bloom: &bs.BloomQuery{Expression: &tx}})
+	for i, pe := range pes {
+		if pe != nil && i%5 == 1 {
+			p.qs = append(p.qs, &bs.Query{Prefilter: &bs.QueryPrefilter{Expression: pe}})
+		}
+	}
+	for _, q := range p.qs {
+		p.want = append(p.want, w.Query(q).Rows)
+	}
+	return p
+}
+
+func (p *probes) differs(w *World) string {
+	for i, q := range p.qs {
+		qr := w.Query(q)
+		if qr.Err != nil || qr.QueryErr != nil {
+			return fmt.Sprintf("%s now fails: %v %v", describeQuery(q), qr.QueryErr, qr.Err)
+		}
+		if miss, extra := diffMultiset(qr.Rows, p.want[i]); len(miss)+len(extra) > 0 {
+			return fmt.Sprintf("%s: now missing %s; now extra %s", describeQuery(q), short(miss, 3), short(extra, 3))
+		}
+	}
+	return ""
 }
